@@ -34,6 +34,7 @@ func init() {
 			{"C14.R11", "q", "shared: an item is never dropped when a split is full", c14r11},
 			{"C13.R11", "q", "collision table persistence: dump/load pair and serialised fields", c13r11},
 			{"C13.R12", "q", "collision table replacement rule (new key, GC move, not-lower position)", c13r12},
+			{"C14.R15", "q", "shared: merge heap interface", c14r15},
 		},
 	})
 }
